@@ -305,8 +305,17 @@ func c07PutDiscipline(p *load.Program, r *oblig.Report, rule string) {
 					continue
 				}
 				if (d.Succs[e] == child || d.Succs[e].Dominates(child)) && ((isLoadOfField(ci.X, "partitionWriter", "currBatch") && ci.Y == arg) || (isLoadOfField(ci.Y, "partitionWriter", "currBatch") && ci.X == arg)) {
-					isCurr = true
-					why = "guarded by ptw.currBatch == batch"
+					// the comparison only means something when currBatch was read in this critical section
+					ld := ci.X
+					if !isLoadOfField(ld, "partitionWriter", "currBatch") {
+						ld = ci.Y
+					}
+					if li, isIns := ld.(ssa.Instruction); isIns && l.Before[li].Holds("partitionWriter.mutex", false) {
+						isCurr = true
+						why = "guarded by ptw.currBatch == batch (read under the partition mutex)"
+					} else {
+						why = "ptw.currBatch is compared with the batch outside the partition mutex"
+					}
 				}
 			}
 			// currBatch = nil follows before the mutex is released
@@ -336,6 +345,25 @@ func c07PutDiscipline(p *load.Program, r *oblig.Report, rule string) {
 		})
 	}
 	r.RequireCount(rule, n, 4)
+	// a closed queue refuses batches: nothing may be put after the queue was closed in the same function
+	for _, fn := range p.ModuleFunctions() {
+		for _, cl := range callsTo(fn, func(c *ssa.CallCommon) bool { return calleeNamed(c, "batchQueue", "Close") }) {
+			ci, ok := cl.(*ssa.Call)
+			if !ok {
+				continue
+			}
+			q := an.PathQuery{Fn: fn, Target: func(i ssa.Instruction) bool {
+				c2, ok := i.(*ssa.Call)
+				return ok && calleeNamed(&c2.Call, "batchQueue", "Put")
+			}}
+			hit := q.ReachableFrom(an.PointOf(ci))
+			found := ""
+			if hit != nil {
+				found = "queue.Put at " + p.Pos(hit.Pos()) + " can run after queue.Close: the batch is refused and its messages are never produced"
+			}
+			r.Check(hit == nil, rule, an.ShortFunc(fn)+" → no batch is handed to the queue after the queue was closed", p.Pos(ci.Pos()), "the open batch is put before queue.Close()", found)
+		}
+	}
 }
 
 // argIsCurrBatch: arg is (a phi of) a load of ptw.currBatch or of a value that was stored into ptw.currBatch on
@@ -814,6 +842,24 @@ func c08ValidationFirst(p *load.Program, r *oblig.Report) {
 			}
 		}
 	}
+	// every message goes through chooseTopic in the iteration that assigns it: the call dominates the recording of the
+	// message's index and sits in the same loop
+	okEach := false
+	var rec *ssa.MapUpdate
+	an.EachInstr(WM, func(ins ssa.Instruction) {
+		if mu, ok := ins.(*ssa.MapUpdate); ok && strings.Contains(typeShort(mu.Map.Type()), "topicPartition") {
+			rec = mu
+		}
+	})
+	if rec != nil {
+		for _, c := range callsTo(WM, func(cc *ssa.CallCommon) bool { f := cc.StaticCallee(); return f != nil && an.RefFuncName(f) == "chooseTopic" }) {
+			ci := c.(ssa.Instruction)
+			if an.Dominates(ci, rec) && loopHeaderOf(ci.Block()) != nil && (loopHeaderOf(ci.Block()) == loopHeaderOf(rec.Block()) || ci.Parent() != rec.Parent()) {
+				okEach = true
+			}
+		}
+	}
+	r.Check(okEach, rule, "WriteMessages → every message's topic is validated in the iteration that assigns the message", p.Pos(WM.Pos()), "w.chooseTopic(msg) dominates assignments[key] = append(…, i) inside the assignment loop", "chooseTopic does not run for every message")
 	r.Check(okDom, rule, "WriteMessages → batchMessages runs after both validation loops completed", p.Pos(bm.Pos()), "the loops over msgs dominate the call and do not contain it", "not established")
 }
 
@@ -1530,7 +1576,19 @@ func c01RequestIdentity(p *load.Program, r *oblig.Report) {
 				}
 			}
 		}
-		if strings.Contains(t, "chooseTopic#0") && strings.Contains(pt, ").Balance") {
+		// the topic is the validated one and nothing else; the partition is what the balancer returned
+		allFrom := func(desc, marker string) bool {
+			if desc == "" {
+				return false
+			}
+			for _, part := range strings.Split(desc, "|") {
+				if !strings.Contains(part, marker) {
+					return false
+				}
+			}
+			return true
+		}
+		if allFrom(t, "chooseTopic#0") && allFrom(pt, ").Balance") {
 			okKey = true
 		}
 	})
@@ -1574,6 +1632,20 @@ func c01RequestIdentity(p *load.Program, r *oblig.Report) {
 				keyIsAccepted = true
 			}
 		}
+		// … and the message added to that batch is msgs[i] for the same i
+		sameMsg := false
+		for _, c := range callsTo(wm, func(cc *ssa.CallCommon) bool { return an.StaticCalleeIs(cc, add) }) {
+			for _, o := range an.Origins(c.Common().Args[1], an.FlowOpts{}) {
+				if o.Kind == "param" && o.Name == "msgs" && o.Path == "[]" {
+					for _, k := range o.Keys {
+						if an.Unwrap(k) == an.Unwrap(va[0]) || clean(an.Shape(k)) == clean(an.Shape(va[0])) {
+							sameMsg = true
+						}
+					}
+				}
+			}
+		}
+		keyIsAccepted = keyIsAccepted && sameMsg
 		lk, isLk := call.Call.Args[0].(*ssa.Lookup)
 		okRecord = idx == "param:indexes[]" && keyIsAccepted && isLk && (lk.X == mu.Map || clean(an.Shape(lk.X)) == clean(an.Shape(mu.Map))) && (lk.Index == mu.Key || clean(an.Shape(lk.Index)) == clean(an.Shape(mu.Key)))
 	})
